@@ -88,12 +88,13 @@ def parsemsg(s, encoding='utf-8'):
 
     prefix = parseprefix(prefix)
 
+    # the only separator is the space (a tab, say, is part of a parameter)
     if s.find(' :') != -1:
         s, trailing = s.split(' :', 1)
-        args = s.split()
+        args = [x for x in s.split(' ') if x]
         args.append(trailing)
     else:
-        args = s.split()
+        args = [x for x in s.split(' ') if x]
 
     args = iter(args)
     command = next(args, None)
